@@ -472,6 +472,9 @@ func (ev *Eval) binary(op string, a, b SV) SV {
 	case "!=":
 		return SV{T: Not(Eq(a.T, b.T)), Ty: boolTy}
 	}
+	if a.T.Sort == SStr && op == "+" {
+		return SV{T: App("str_cat", SStr, a.T, b.T), Ty: a.Ty}
+	}
 	if a.T.Sort == SInt {
 		switch op {
 		case "<", "<=", ">", ">=":
